@@ -15,8 +15,8 @@ READS = [None, ("rb", 5, False), ("rb", 4, True), ("ri", 5, False), ("ri", 4, Tr
          ("rur",), ("ruc",), ("rur_mb", 2), ("ru_mb", 2)]
 LATER = [("rb", 2, False), ("rb", 3, True), ("ri", 2, False), ("ru", b"\n"), ("rur",), ("ruc",), ("rb", 50, False),
          ("ri", 50, False), ("ru_mb", 2), ("rur_mb", 2)]
-CAUSES_CONNECTED = ["close", "close_exc", "eof", "reset_read", "eio_read", "epipe_write", "eio_write", "flush_then_epipe"]
-CAUSES_CONNECTING = ["close", "close_exc", "so_error"]
+CAUSES_CONNECTED = ["close", "close_exc", "close_bexc", "eof", "reset_read", "eio_read", "epipe_write", "eio_write", "flush_then_epipe"]
+CAUSES_CONNECTING = ["close", "close_exc", "close_bexc", "so_error"]
 DATA = [b"", b"x", b"xy\nzzzzzz", b"xxxxa\n\n"]     # the last one is used with read_chunk_size=4
 MODES = ["none", "separate", "together"]
 
@@ -107,6 +107,10 @@ def run(case):
                 sock.send_script.extend([6, "EAGAIN"])
                 track("write0", s.write(memoryview(array.array("I", [0x30773077] * 5))))
                 continue
+            if cancel == "empty-write" and i == 0:
+                # an empty write queued while the connect is pending: it completes (or fails) with the connect
+                track("write0", s.write(b""))
+                continue
             sock.blocked = True
             track("write%d" % i, s.write(b"w%d" % i * 10))
         w.pump()
@@ -128,6 +132,14 @@ def run(case):
             if mode == "together" and data:
                 sock.feed(data)
             exc = Boom("b")
+            s.close(exc_info=exc)
+        elif cause == "close_bexc":
+            # the error object is a BaseException that is no Exception (a CancelledError kept from a cancellation and
+            # passed on during shutdown), given outside any except block
+            if mode == "together" and data:
+                sock.feed(data)
+            import asyncio
+            exc = asyncio.CancelledError("shutdown")
             s.close(exc_info=exc)
         elif cause == "eof":
             if mode == "together" and data:
@@ -176,6 +188,13 @@ def run(case):
                     r = "stream"
                 obs["futs"][name] = ("ok", r)
         # after the close
+        try:
+            s.write(b"")
+            obs["write_after_empty"] = "accepted"
+        except StreamClosedError:
+            obs["write_after_empty"] = "StreamClosedError"
+        except Exception as e:
+            obs["write_after_empty"] = type(e).__name__
         try:
             s.write(b"late")
             obs["write_after"] = "accepted"
@@ -283,6 +302,8 @@ def judge(case, obs):
         bad.append(("close-callback:before-futures", "close callback ran before every future was settled"))
     if obs["write_after"] != "StreamClosedError":
         bad.append(("write-after-close:" + str(obs["write_after"]), "write after close: %r" % obs["write_after"]))
+    if obs.get("write_after_empty") != "StreamClosedError":
+        bad.append(("empty-write-after-close:" + str(obs.get("write_after_empty")), "write(b'') after close: %r" % obs.get("write_after_empty")))
     if not obs["sock_closed"]:
         bad.append(("socket-not-closed", "fd not closed"))
     # later read: only from buffered data, and the type its own contract promises
@@ -422,6 +443,8 @@ def all_cases():
                                     yield (connecting, pre, ri, nw, di, mode, cause, li)
                                 if nw and not connecting and cause in ("close", "close_exc", "eof", "reset_read", "eio_read"):
                                     yield (connecting, pre, ri, nw, di, mode, cause, 0, "typed-partial")
+                                if connecting and nw:
+                                    yield (connecting, pre, ri, nw, di, mode, cause, 0, "empty-write")
                                 # one of the pending operations was cancelled by its caller before the close
                                 for cancel in ("read", "write0", "connect"):
                                     if (cancel == "read" and ri == 0) or (cancel == "write0" and nw == 0) or \
